@@ -71,6 +71,14 @@ type BytePtr struct {
 	idx *Term
 }
 
+// ByteView is a pointer to a byte array that aliases part of a byte object
+// (result of a slice-to-array-pointer conversion).
+type ByteView struct {
+	obj *ByteObj
+	off *Term
+	n   int
+}
+
 // BArrV is a byte-array value [n]byte.
 type BArrV struct {
 	arr *Arr
@@ -292,6 +300,8 @@ func load(l Loc) Value {
 		return BArrV{arr: l.arr, off: I64(0), n: int(l.maxCap)}
 	case BytePtr:
 		return l.obj.arr.Select(l.idx)
+	case ByteView:
+		return BArrV{arr: l.obj.arr, off: l.off, n: l.n}
 	case NilLoc:
 		panic(goRuntimePanic("invalid memory address or nil pointer dereference"))
 	}
@@ -317,6 +327,9 @@ func store(l Loc, v Value) {
 		l.arr = ArrCopy(l.arr, I64(0), b.arr, b.off, I64(int64(b.n)))
 	case BytePtr:
 		l.obj.arr = l.obj.arr.Store(l.idx, v.(*Term))
+	case ByteView:
+		b := v.(BArrV)
+		l.obj.arr = ArrCopy(l.obj.arr, l.off, b.arr, b.off, I64(int64(b.n)))
 	case NilLoc:
 		panic(goRuntimePanic("invalid memory address or nil pointer dereference"))
 	default:
